@@ -1,13 +1,4 @@
 HOOK_COMMITS = []
 NOT_BUILT = 'not yet covered: model/theorem for this property not completed in this state of /verif (see DESIGN.md section 10)'
-CHECKS = {
- 'C19': {
-  'text': 'Theorems C19_persistent, C19_positive (all n in [0,2^63): RESTORE ttl parses as 0 < t <= max 1 n), C19_not_found_skipped, C19_paths about Model/Ttl.v, '
-          'which mirrors pttl_to_restore_expire_time and the reply classification of the scan/push and pull paths; the model is tied to the code by running '
-          'the real function and the three real transfer paths on the same PTTL/DUMP replies as the extracted model, and the property monitor is evaluated on what the real code sent.',
-  'note': 'Coq kernel; closed under the global context; extraction (ExtrOcamlBasic) + OCaml driver; harness stand-ins for Redis; Redis RESTORE/PTTL semantics assumed. '
-          'Partial: key expiry in real time during a migration is outside the model.',
-  'technique': 'Coq proof over a hand-written model + differential correspondence check against the real code',
- },
-}
+# reason per property that has no checks/Cxx.py with a MANIFEST entry
 NOT_APPLICABLE = {('C%02d' % i): NOT_BUILT for i in range(1, 21)}
